@@ -664,6 +664,7 @@ fn push_send_rec(sim: &mut Sim, w: usize, to: usize, acct: usize, sl: Slate, a: 
 		ttl_cutoff: cutoff,
 		tx: None,
 		rejected_by_chain: None,
+		step_failures: 0,
 	});
 	sim.slates.len() - 1
 }
@@ -691,6 +692,7 @@ fn push_invoice_rec(sim: &mut Sim, w: usize, payer: usize, acct: usize, sl: Slat
 		ttl_cutoff: None,
 		tx: None,
 		rejected_by_chain: None,
+		step_failures: 0,
 	});
 	sim.slates.len() - 1
 }
